@@ -18,13 +18,13 @@ func checkC11(c *Ctx) {
 }
 
 func checkC15(c *Ctx) {
-	c.rule = "TRACE: FastWriteNocopy of Base/BaseResp/AppEx with a recording direct writer and with nil, string lengths {0,1,4095,4096,4097,8192,12288} in every field position (all small/large combinations for Base's three strings, map key/value), plus random structs; TLC splices the recorded pieces into the linear buffer at offset B - remainCap and compares with EncStruct (the copying path), checks remainCap >= len, the number of direct writes = number of strings >= threshold, and advertised length = copying length. Also a by-reference direct writer with values (string and binary, 4..16 KiB) rendered into a local scratch array of a noinline caller, the pieces looked at after that frame returned and its stack was reused. Values of 1 GiB + 4096 and 1.5 GiB through both primitives (every piece handed to the direct writer belongs at the same linear position, within the bytes the call reports as written)."
+	c.rule = "TRACE: FastWriteNocopy of Base/BaseResp/AppEx with a recording direct writer and with nil, string lengths {0,1,4095,4096,4097,8192,12288} in every field position (all small/large combinations for Base's three strings, map key/value), plus random structs; TLC splices the recorded pieces into the linear buffer at offset B - remainCap and compares with EncStruct (the copying path), checks remainCap >= len, the number of direct writes = number of strings >= threshold, and advertised length = copying length. Also a by-reference direct writer with values (string and binary, 4..16 KiB) rendered into a local scratch array of a noinline caller, the pieces looked at after that frame returned and its stack was reused. Values of 1 GiB + 4096 and 1.5 GiB through both primitives (every piece handed to the direct writer belongs at the same linear position, within the bytes the call reports as written). Direct writers that take the piece and report an error."
 	c.MC("MC_FastStructs.tla", "MC_FastStructs.cfg", 8)
 	c.TraceCheck(famStructC15, nocopyCases(c))
 }
 
 func checkC12(c *Ctx) {
-	c.rule = "MC: all 65536 first words (strict version), all 65536 message types, every truncation of a header (MC_ThriftWire). TRACE: message headers (names empty..70000 bytes incl. arbitrary bytes, message types across 0..65535, boundary sequence ids) written by the three writers and read by the two readers under fragmentation (enc/dec events vs Enc/Dec); raw headers for every first word (quick: stride 41; thorough: all) and every truncation point; MarshalFastMsg/UnmarshalFastMsg of Base/BaseResp/AppEx payloads incl. EXCEPTION messages (application-exception error with original type id and text, caller's struct untouched), truncated and perturbed messages. Hand-built messages of a foreign peer: EXCEPTION payloads with either field omitted / reordered / with unknown fields / just STOP, replies whose struct omits fields. GIANT BUFFERS (Go monitor): CALL and EXCEPTION messages at the head of lazily mapped buffers of 2^31-1 .. 2^32+33 bytes through ReadMessageBegin and UnmarshalFastMsg."
+	c.rule = "MC: all 65536 first words (strict version), all 65536 message types, every truncation of a header (MC_ThriftWire). TRACE: message headers (names empty..70000 bytes incl. arbitrary bytes, message types across 0..65535, boundary sequence ids) written by the three writers and read by the two readers under fragmentation (enc/dec events vs Enc/Dec); raw headers for every first word (quick: stride 41; thorough: all) and every truncation point; MarshalFastMsg/UnmarshalFastMsg of Base/BaseResp/AppEx payloads incl. EXCEPTION messages (application-exception error with original type id and text, caller's struct untouched), truncated and perturbed messages. Hand-built messages of a foreign peer: EXCEPTION payloads with either field omitted / reordered / with unknown fields / just STOP, replies whose struct omits fields. GIANT BUFFERS (Go monitor): CALL and EXCEPTION messages at the head of lazily mapped buffers of 2^31-1 .. 2^32+33 bytes through ReadMessageBegin and UnmarshalFastMsg. Message types with the low byte of CALL / REPLY / EXCEPTION / ONEWAY under every high byte through MarshalFastMsg / UnmarshalFastMsg."
 	c.MC("MC_ThriftWire.tla", "MC_ThriftWire.cfg", 4)
 	c.TraceCheck(famWireC12, msgCases(c))
 	c.TraceCheck(famStructC12, msgStructCases(c))
